@@ -175,7 +175,23 @@ class Interp(Engine):
         rb = self.reg.root_of(b.ty.args[0])
         if ra != rb:
             return False
-        key = ('eq', ra)
+        if ra in getattr(self, 'opaque_eq_classes', ()):
+            # python == of these classes as a named function with its definition (from __eq__'s source) as a global
+            # axiom: keeps obligations small; the definition is instantiated where it is needed
+            f = self.uf('pyeq_' + ra, a.t.sort(), b.t.sort(), z3.BoolSort())
+            if ra not in self._pyeq_defined:
+                self._pyeq_defined.add(ra)
+                x = z3.Const('pyeq!x_' + ra, a.t.sort())
+                y = z3.Const('pyeq!y_' + ra, b.t.sort())
+                sub0 = State()
+                sub0.stack = [Frame({}, None, {}, 'pyeq')]
+                sub0.spec = True
+                body = self._class_eq_body(V(x, CLS(ra)), V(y, CLS(ra)), sub0, ra)
+                self.axioms.append(z3.ForAll([x, y], f(x, y) == self.b(body), patterns=[f(x, y)]))
+            return f(a.t, b.t)
+        return self._class_eq_body(a, b, st, ra)
+
+    def _class_eq_body(self, a, b, st, ra):
         cases = []
         for ci in self.reg.concrete(ra):
             eqf = getattr(ci.pyclass, '__eq__', None)
